@@ -24,7 +24,7 @@ def c16(cx):
              "checkpoint assertions are decided), R-9XXX (no path reaches an internal-error emission), R-CKPT "
              "(checkpoint typestate), R-FRAME-BALANCE (frame pops never empty the pending-statement stack). Decides these shape-visible necessary conditions of totality, not linearity.")
 def c01(cx):
-    lea_glue.apply(cx, ["R-PROGRESS", "R-PANIC", "R-9XXX", "R-CKPT", "R-FRAME-BALANCE", "R-LOOKAHEAD-LINEAR"])
+    lea_glue.apply(cx, ["R-PROGRESS", "R-PANIC", "R-9XXX", "R-CKPT", "R-FRAME-BALANCE", "R-LOOKAHEAD-LINEAR", "R-PUSH-ORIGIN"])
 
 
 @prop("C04", 'LEA rules R-NEWLINE (every consumed character that may be a line feed is followed by add_line() '
